@@ -68,7 +68,17 @@ GateOk(e) ==
   /\ (e.uses /\ ~e.stack => e.code # 0 /\ e.code # 101 /\ e.names)
   /\ (e.uses /\ e.stack => e.code = 0)
   /\ (~e.uses => e.code = 0 /\ e.same)
-FeatArgOk(e) == e.code = (IF e.valid THEN 0 ELSE 2)
+(* the value of -f/--features: comma separated, empty items skipped, only "stack", not twice *)
+RECURSIVE SplitComma(_, _, _)
+SplitComma(s, cur, acc) ==
+  IF s = << >> THEN Append(acc, cur)
+  ELSE IF s[1] = "," THEN SplitComma(Tail(s), << >>, Append(acc, cur))
+  ELSE SplitComma(Tail(s), Append(cur, s[1]), acc)
+FeatValid(v) ==
+  LET items == SelectSeq(SplitComma(v, << >>, << >>), LAMBDA x : x # << >>)
+  IN  /\ \A i \in 1 .. Len(items) : items[i] = << "s", "t", "a", "c", "k" >>
+      /\ Len(items) <= 1
+FeatArgOk(e) == IF FeatValid(e.value) THEN e.code = 0 ELSE e.code = 2
 
 Explains(e) ==
   CASE e.ev = "transport" -> TransportOk(e)
